@@ -78,11 +78,12 @@ def neg (a : IR) : IR := ⟨R.neg a.rat, R.neg a.inf⟩
 def rAdd (a : R) (b : IR) : IR := ⟨R.add a b.rat, b.inf⟩
 def rSub (a : R) (b : IR) : IR := ⟨R.sub a b.rat, R.neg b.inf⟩
 def rMul (a : R) (b : IR) : IR := ⟨R.mul a b.rat, R.mul a b.inf⟩
-def rDiv (a : R) (b : IR) : IR := ⟨R.div a b.rat, R.div a b.inf⟩
+/-- first-order quotient `a / (r + i·ε) = a/r - (a·i / r²)·ε` -/
+def rDiv (a : R) (b : IR) : IR := ⟨R.div a b.rat, R.neg (R.div (R.mul a b.inf) (R.mul b.rat b.rat))⟩
 def iAdd (a : Int) (b : IR) : IR := ⟨R.iAdd a b.rat, b.inf⟩
 def iSub (a : Int) (b : IR) : IR := ⟨R.iSub a b.rat, R.neg b.inf⟩
 def iMul (a : Int) (b : IR) : IR := ⟨R.iMul a b.rat, R.iMul a b.inf⟩
-def iDiv (a : Int) (b : IR) : IR := ⟨R.iDiv a b.rat, R.iDiv a b.inf⟩
+def iDiv (a : Int) (b : IR) : IR := ⟨R.iDiv a b.rat, R.neg (R.div (R.iMul a b.inf) (R.mul b.rat b.rat))⟩
 
 def WF (a : IR) : Prop := a.rat.WF ∧ a.inf.WF
 instance (a : IR) : Decidable a.WF := by unfold WF; infer_instance
